@@ -1,6 +1,6 @@
-//! C01: path sanitisation (`sanitize_request`, `percent_decode`, `make_path`) called directly,
-//! and the request pipeline (`kvarn::handle_connection`) over a loopback connection against a
-//! fixture tree with sentinel files outside `public/`.
+//! C01: path sanitisation (`sanitize_request`, `percent_decode`, `make_path`) called directly.
+//! The request pipeline (`kvarn::handle_cache` on a `Host` over a fixture tree with sentinel files
+//! outside the public directory) is in `c01pipe.rs`.
 use crate::xval::X;
 use kvarn_utils::parse::{sanitize_request, SanitizeError};
 
